@@ -24,7 +24,7 @@
 From Coq Require Import ZArith List Bool String.
 From V Require Import Base.Int Base.IO Spec.Gregorian.
 From V Require Model.Date Model.Time.
-From V Require Model.DateExtra Model.C01 Model.Show Judge.C09 Proofs.C04Show.
+From V Require Model.DateExtra Model.C01 Model.Show Judge.C09 Judge.C04 Proofs.C04Show Proofs.C04Holds.
 From V Require Import Model.DateTime Model.C04 Proofs.C04 Proofs.C04Date Proofs.C04Wide Proofs.C04Ops.
 Import ListNotations.
 Open Scope Z_scope.
@@ -613,3 +613,49 @@ Print Assumptions C04_show_wallclock.
 Theorem C04_show_zone_whole_minute : forall off, off mod 60 = 0 -> C04Show.zone_text off = Judge.C09.offset_text off.
 Proof. exact C04Show.zone_text_whole_minute. Qed.
 Print Assumptions C04_show_zone_whole_minute.
+
+(* ================================================================================================
+   The executable property (Judge/C04.v, the oracle applied to the implementation's outputs) accepts the
+   model's output on every case of its domain, for the ops below (Proofs/C04Holds.v).  Date-times / naive
+   readings are given in their canonical encoding ([enc_dtz] / [enc_ndt]); [dtz_ok] / [ndt_ok] / [off_ok] are
+   exactly the judge's domain (C04Holds.j_z / j_naive / j_off: the judge decodes such an argument to the
+   instant, fraction and offset the theorems above speak about). *)
+Theorem C04_holds_uml : forall s, Judge.C04.off_ok s = true ->
+  Judge.C04.judge B"z.uml" [VInt s] (run B"z.uml" [VInt s]) = JOk.
+Proof. exact C04Holds.holds_uml. Qed.
+Print Assumptions C04_holds_uml.
+Theorem C04_holds_peast : forall s, in_i32 s = true ->
+  Judge.C04.judge B"z.peast" [VInt s] (run B"z.peast" [VInt s]) = JOk.
+Proof. exact C04Holds.holds_peast. Qed.
+Print Assumptions C04_holds_peast.
+Theorem C04_holds_pwest : forall s, in_i32 s = true ->
+  Judge.C04.judge B"z.pwest" [VInt s] (run B"z.pwest" [VInt s]) = JOk.
+Proof. exact C04Holds.holds_pwest. Qed.
+Print Assumptions C04_holds_pwest.
+Theorem C04_holds_mk : forall off u, ndt_ok u -> off_ok off ->
+  Judge.C04.judge B"z.mk" [VInt off; enc_ndt u] (run B"z.mk" [VInt off; enc_ndt u]) = JOk.
+Proof. exact C04Holds.holds_mk. Qed.
+Print Assumptions C04_holds_mk.
+Theorem C04_holds_conv : forall a, dtz_ok a ->
+  Judge.C04.judge B"z.conv" [enc_dtz a] (run B"z.conv" [enc_dtz a]) = JOk.
+Proof. exact C04Holds.holds_conv. Qed.
+Print Assumptions C04_holds_conv.
+Theorem C04_holds_pcmp : forall a b, dtz_ok a -> dtz_ok b ->
+  Judge.C04.judge B"z.pcmp" [enc_dtz a; enc_dtz b] (run B"z.pcmp" [enc_dtz a; enc_dtz b]) = JOk.
+Proof. exact C04Holds.holds_pcmp. Qed.
+Print Assumptions C04_holds_pcmp.
+Theorem C04_holds_prov : forall a, dtz_ok a ->
+  Judge.C04.judge B"z.prov" [enc_dtz a] (run B"z.prov" [enc_dtz a]) = JOk.
+Proof. exact C04Holds.holds_prov. Qed.
+Print Assumptions C04_holds_prov.
+Theorem C04_holds_pfromlocal : forall off l, ndt_ok l -> off_ok off ->
+  Judge.C04.judge B"z.pfromlocal" [VInt off; enc_ndt l] (run B"z.pfromlocal" [VInt off; enc_ndt l]) = JOk.
+Proof. exact C04Holds.holds_pfromlocal. Qed.
+Print Assumptions C04_holds_pfromlocal.
+(* the hypotheses are satisfiable, also by values whose wall clock is in the headroom *)
+Example C04_ops_inhabited :
+  off_ok 3600 /\ Judge.C04.off_ok (-86399) = true /\ in_i32 86400 = true /\
+  dtz_ok z_max_p2h /\ dtz_ok z_min_m2h /\ ndt_ok NDT_MAX /\ ndt_ok NDT_MIN /\
+  in_rng (usecs NDT_MAX - 3600) = true /\ in_rng (usecs NDT_MAX - -1) = false.
+Proof. exact C04Holds.ops_inhabited. Qed.
+Print Assumptions C04_ops_inhabited.
